@@ -16,6 +16,6 @@ mkdir -p "$HERE/coq/Gen" "$HERE/work"
   { echo "-Q . PV"; ls Gen/*.v Model/*.v Spec/*.v Proofs/*.v Props/*.v 2>/dev/null; } > _CoqProject.new
   if ! cmp -s _CoqProject.new _CoqProject; then mv _CoqProject.new _CoqProject; rm -f Makefile; else rm -f _CoqProject.new; fi
   [ -f Makefile ] || coq_makefile -f _CoqProject -o Makefile >/dev/null
-  timeout 3000 make -k -j16 2>&1 | grep -v 'conda.cli' > "$HERE/work/build.log"
+  timeout 3000 make -k -j16 COQC="timeout 900 coqc" 2>&1 | grep -v 'conda.cli' > "$HERE/work/build.log"
 ) 9> "$HERE/work/.build.lock"
 exit 0
